@@ -2,6 +2,7 @@ import Chess.Lemmas.Reach
 import Chess.Lemmas.FenRead
 import Chess.Lemmas.SpecSums
 import Chess.Lemmas.FenEpRank
+import Chess.Lemmas.FnsEquiv.Letters
 
 /-!
 # C17 — FEN import is faithful and rejects malformed text without crashing
@@ -102,3 +103,12 @@ end Chess.Props.C17
 #print axioms Chess.Props.C17.unbacked_rights_are_refused
 #print axioms Chess.Props.C17.wrong_en_passant_rank_is_refused
 #print axioms Chess.Props.C17.edge_pawns_are_refused
+
+/-! ### Translation tie (C17.T)
+`tools/translate.py` regenerates `Chess/Gen/Fns.lean` from the Rust text of the leaf functions on every run (a
+parser, not patterns); the theorems below — proved in `Chess/Lemmas/FnsEquiv/*` and re-checked by the kernel whenever
+the generated term changes — say that the TRANSLATED code equals the hand-written model and the generated tables this
+file's theorems are about, for the letters the FEN reader accepts (`from_char_ascii`), for EVERY `Char` (the 128 ASCII characters by kernel evaluation, all others refused on both sides). A rewrite of the Rust text that keeps the meaning leaves them true; one that
+changes it breaks the theorem named after the function. -/
+#print axioms Chess.FnsEquiv.Piece_from_char_ascii_eq
+#print axioms Chess.FnsEquiv.Piece_from_char_ascii_table
